@@ -534,8 +534,12 @@ func generate() {
 		{"wf", oldImg, hx.Hex(validImage(small))},
 	}
 	if th {
-		budget := 60
-		big := randItems(r, 4, 8, &budget, false)
+		var big []*spec
+		for n := 0; n < 40; {
+			budget := 60
+			big = randItems(r, 4, 8, &budget, false)
+			n = 60 - budget
+		}
 		cases = append(cases,
 			crashCase{"save", "none", fmtTree(small)},
 			crashCase{"save", hx.Hex(validImage(small)), fmtTree(big)},
